@@ -38,8 +38,8 @@ PROPS = {
         "assumptions": _COMMON_ASSUMPTIONS,
     },
     "C16": {
-        "families": [("fs", {"quick": 3000, "thorough": 150000}, None)],
-        "wall": {"quick": 200, "thorough": 2400},
+        "families": [("fs", {"quick": 3000, "thorough": 150000}, None), ("fsw", {"quick": 16, "thorough": 1200}, None)],
+        "wall": {"quick": 200, "thorough": 3000},
         "rule": "one evaluation = one seeded world (tree of 1-8 files with nesting, spaces, non-ASCII, dot-files, empty and "
                 "pre-existing directories; one netconan run through the CLI, the directory API, the single-file API or the stream "
                 "API; a listing order; buffer/short-read/short-write knobs; 0-3 injected faults); distinct = distinct signature "
